@@ -8,7 +8,7 @@
    Evidence is written once per case in a table; operations and observations refer to table
    indices (an evidence the harness cannot find in the table is printed as an out-of-range index). *)
 From Coq Require Import List ZArith NArith Bool.
-From TM Require Import Common.Hex Generated.Consts C11.Model C11.Spec.
+From TM Require Import Common.Hex Generated.Consts C11.Model C11.Spec C11.CrashModel.
 Import ListNotations.
 Open Scope Z_scope.
 
@@ -35,6 +35,9 @@ Inductive xop :=
 | XUpdate (st : stt) (l : list nat) (res : Z)  (* 0 returned, 3 panicked *)
 | XReport (va vb : votet) (expect : nat)   (* table index of the evidence these votes must become *)
 | XRestart
+| XCrash (st : stt) (l : list nat)        (* block carrying l stored and its state saved (handshake
+                                            replay with EmptyEvidencePool), evpool.Update never ran,
+                                            then NewPool over the same databases *)
 | XPending (maxb : Z) (res : list nat) (total : Z).
 Inductive obs := Obs (pend : list nat) (size : Z) (clist : list nat).
 
@@ -240,6 +243,7 @@ Definition step_check (en : env) (tbl : list evidence) (abs : list (list (Z * N 
                  hi_sa := match e_body e with EvDup d => d_sig_a d | _ => false end;
                  hi_sb := match e_body e with EvDup d => d_sig_b d | _ => false end |}, 0, [])
     | XRestart => (restart p, 0, [])
+    | XCrash st l => (crash_restart true en p (mk_st st) (map (evof tbl) l), 0, [])
     | XPending maxb res total =>
       let '(l, t) := pending_evidence p maxb in
       (p, 0, [mism (list_eqb ev_eqb l (map (evof tbl) res)) 25; mism (t =? total) 26])
@@ -247,14 +251,16 @@ Definition step_check (en : env) (tbl : list evidence) (abs : list (list (Z * N 
   let res_i := match x with
                | XAdd _ r => r | XCheck _ r => r | XUpdate _ _ r => r | _ => 0 end in
   (* the monitor's own bookkeeping *)
-  let st' := match x with XUpdate st _ 0 => mk_st st | _ => m_st m end in
+  let st' := match x with XUpdate st _ 0 => mk_st st | XCrash st _ => mk_st st | _ => m_st m end in
   let committed' := match x with
                     | XUpdate _ l 0 => keys_of tbl l ++ m_committed m
+                    | XCrash _ l => keys_of tbl l ++ m_committed m
                     | _ => m_committed m end in
   let reports' := match x with
                   | XReport va _ ex => m_reports m ++ [(v_height (mk_vote va), ex)]
                   | XUpdate _ _ 0 => []
                   | XRestart => []
+                  | XCrash _ _ => []
                   | _ => m_reports m end in
   let st := m_st m in
   let admitted_ok (i : nat) :=
@@ -286,6 +292,7 @@ Definition step_check (en : env) (tbl : list evidence) (abs : list (list (Z * N 
                        match x with
                        | XUpdate _ l 0 => kmem (e_key e) (keys_of tbl l) || ev_expired st' e
                        | XRestart => ev_expired st' e
+                       | XCrash _ l => kmem (e_key e) (keys_of tbl l) || ev_expired st' e
                        | _ => false
                        end) gone) 9 ] ++
     match x with
@@ -327,6 +334,7 @@ Definition step_check (en : env) (tbl : list evidence) (abs : list (list (Z * N 
       [ viol (match fresh with [] => true | _ => false end) 7;
         viol (forallb (fun i => kmem (e_key (evof tbl i)) newk || ev_expired st (evof tbl i))
                       (m_pend m)) 7 ]
+    | XCrash _ _ => [ viol (match fresh with [] => true | _ => false end) 7 ]
     | XReport _ _ _ => [ viol (match fresh with [] => true | _ => false end) 1 ]
     | XPending maxb res total =>
       [ viol (match fresh with [] => true | _ => false end) 1;
